@@ -4,6 +4,10 @@ From V Require Import Common.Base C13.KwSpec C13.Token C13.LexSpec C13.LexProofs
   C13.ParseSpec C13.ParseMono C13.PrintParse C13.PrintParse2.
 From Coq Require Import String.
 
+Section WithMode.
+Variable mw : bool.
+Local Notation print_items := (Token.print_items mw).
+
 Lemma print_comma_unfold P l r :
   print_items P (EBin BComma l r) = paren (P >=? LComma) (print_items 0 l ++ [IOp BComma] ++ print_items 0 r).
 Proof. reflexivity. Qed.
@@ -11,7 +15,7 @@ Proof. reflexivity. Qed.
 Lemma print0_comma_app a : forall b,
   print_items 0 (comma_app a b) = print_items 0 a ++ [IOp BComma] ++ print_items 0 b.
 Proof.
-  induction b as [s|s|b0 f|t IHt s|u v IHv|o b1 IH1 b2 IH2|c0 IHc0 y0 IHy0 n0 IHn0|t0 IHt0 i0 IHi0]; try reflexivity.
+  induction b as [s|s|b0 f|t IHt s|u v IHv|o b1 IH1 b2 IH2|c0 IHc0 y0 IHy0 n0 IHn0|t0 IHt0 i0 IHi0|f0 IHf0 a0 IHa0|f0 IHf0 a0 IHa0| |x0 IHx0 r0 IHr0]; try reflexivity.
   destruct o; try reflexivity.
   change (comma_app a (EBin BComma b1 b2)) with (EBin BComma (comma_app a b1) b2).
   rewrite !print_comma_unfold. change (0 >=? LComma) with false. unfold paren.
@@ -20,15 +24,15 @@ Qed.
 
 Lemma shape_norm_or_and e : is_or_and (norm e) = is_or_and e.
 Proof.
-  destruct e as [s|s|b f|t s|u v|o l r|c0 y0 n0|t0 i0]; try reflexivity. simpl.
+  destruct e as [s|s|b f|t s|u v|o l r|c0 y0 n0|t0 i0|f0 a0|f0 a0| |x0 r0]; try reflexivity. simpl.
   destruct (op_eqb o BComma) eqn:E; [|reflexivity].
   assert (o = BComma) by (destruct o; try discriminate; reflexivity). subst o.
-  destruct (norm r) as [| | | | |o2 ? ?| |]; try reflexivity. destruct o2; reflexivity.
+  destruct (norm r) as [| | | | |o2 ? ?| | | | | |]; try reflexivity. destruct o2; reflexivity.
 Qed.
 
 Lemma print_norm : forall e P, print_items P (norm e) = print_items P e.
 Proof.
-  induction e as [s|s|b f|t IHt s|u v IHv|o l IHl r IHr|c0 IHc0 y0 IHy0 n0 IHn0|t0 IHt0 i0 IHi0]; intro P; try reflexivity.
+  induction e as [s|s|b f|t IHt s|u v IHv|o l IHl r IHr|c0 IHc0 y0 IHy0 n0 IHn0|t0 IHt0 i0 IHi0|f0 IHf0 a0 IHa0|f0 IHf0 a0 IHa0| |x0 IHx0 r0 IHr0]; intro P; try reflexivity.
   - simpl. rewrite IHt. reflexivity.
   - simpl. rewrite !IHv. reflexivity.
   - simpl norm. destruct (op_eqb o BComma) eqn:E.
@@ -38,46 +42,60 @@ Proof.
         by (rewrite print0_comma_app, IHl, IHr; reflexivity).
       (* the wrapping decision only looks at the operator, which is a comma on both sides *)
       assert (Hc : exists x y, comma_app (norm l) (norm r) = EBin BComma x y).
-      { destruct (norm r) as [| | | | |o2 ? ?| |]; simpl; eauto. destruct o2; simpl; eauto. }
+      { destruct (norm r) as [| | | | |o2 ? ?| | | | | |]; simpl; eauto. destruct o2; simpl; eauto. }
       destruct Hc as (x & y & Hxy). rewrite Hxy in *. rewrite print_comma_unfold in *.
       change (0 >=? LComma) with false in H0. unfold paren in H0 at 1. rewrite H0. reflexivity.
     + cbn [print_items]. cbv zeta. rewrite !IHl, !IHr, !shape_norm_or_and.
       assert (Hs : match norm l with EUn u _ => negb (op_eqb u UPreDec || op_eqb u UPreInc || op_eqb u UPostDec || op_eqb u UPostInc) | ENum _ => true | _ => false end
                  = match l with EUn u _ => negb (op_eqb u UPreDec || op_eqb u UPreInc || op_eqb u UPostDec || op_eqb u UPostInc) | ENum _ => true | _ => false end).
-      { destruct l as [| | | | |o2 a b2| |]; try reflexivity. simpl. destruct (op_eqb o2 BComma); [|reflexivity].
-        destruct (norm b2) as [| | | | |o3 ? ?| |]; try reflexivity. destruct o3; reflexivity. }
+      { destruct l as [| | | | |o2 a b2| | | | | |]; try reflexivity. simpl. destruct (op_eqb o2 BComma); [|reflexivity].
+        destruct (norm b2) as [| | | | |o3 ? ?| | | | | |]; try reflexivity. destruct o3; reflexivity. }
       rewrite Hs. reflexivity.
-  - cbn [norm print_items]. rewrite !IHc0, !IHy0, !IHn0. reflexivity.
-  - cbn [norm print_items]. rewrite !IHt0, !IHi0. reflexivity.
+  - cbn [norm Token.print_items]. rewrite !IHc0, !IHy0, !IHn0. reflexivity.
+  - cbn [norm Token.print_items]. rewrite !IHt0, !IHi0. reflexivity.
+  - cbn [norm Token.print_items]. rewrite !IHf0, !IHa0. reflexivity.
+  - cbn [norm Token.print_items]. rewrite !IHf0, !IHa0.
+    replace (has_args (norm a0)) with (has_args a0) by (destruct a0; try reflexivity; simpl; destruct (op_eqb o BComma); [|reflexivity]; destruct (norm a0_2) as [| | | | |o9 ? ?| | | | | |]; try reflexivity; destruct o9; reflexivity).
+    reflexivity.
+  - cbn [norm Token.print_items]. rewrite !IHx0.
+    destruct r0 as [| | | | |o9 l9 r9| | | | | |x9 r9]; try reflexivity.
+    + simpl norm. destruct (op_eqb o9 BComma); [|reflexivity]. destruct (norm r9) as [| | | | |o8 ? ?| | | | | |]; try reflexivity. destruct o8; reflexivity.
+    + change (norm (ACons x9 r9)) with (ACons (norm x9) (norm r9)). cbv iota. rewrite <- IHr0. reflexivity.
 Qed.
 
 Lemma wf_comma_plain a b : wf a -> wf b -> wf (EBin BComma a b).
 Proof. intros Ha Hb. simpl. repeat split; auto. discriminate. Qed.
 Lemma wf_comma_app a : forall b, wf a -> wf b -> wf (comma_app a b).
 Proof.
-  induction b as [s|s|b0 f|t IHt s|u v IHv|o b1 IH1 b2 IH2|c0 IHc0 y0 IHy0 n0 IHn0|t0 IHt0 i0 IHi0]; intros Ha Hb;
+  induction b as [s|s|b0 f|t IHt s|u v IHv|o b1 IH1 b2 IH2|c0 IHc0 y0 IHy0 n0 IHn0|t0 IHt0 i0 IHi0|f0 IHf0 a0 IHa0|f0 IHf0 a0 IHa0| |x0 IHx0 r0 IHr0]; intros Ha Hb;
     try (apply wf_comma_plain; assumption).
   destruct o; try (apply wf_comma_plain; assumption).
   change (comma_app a (EBin BComma b1 b2)) with (EBin BComma (comma_app a b1) b2).
   destruct Hb as (H1 & H2 & _). apply wf_comma_plain; auto.
 Qed.
-Lemma wf_norm : forall e, wf e -> wf (norm e).
+Lemma wf_norm_both : forall e, (wf e -> wf (norm e)) /\ (wfa e -> wfa (norm e)).
 Proof.
-  induction e as [s|s|b f|t IHt s|u v IHv|o l IHl r IHr|c0 IHc0 y0 IHy0 n0 IHn0|t0 IHt0 i0 IHi0]; intro H; try exact H.
-  - destruct H as (H1 & H2 & H3). simpl. auto.
-  - destruct H as (H1 & H2 & H3). simpl. repeat split; auto. rewrite is_target_norm. exact H3.
+  induction e as [s|s|b f|t IHt s|u v IHv|o l IHl r IHr|c0 IHc0 y0 IHy0 n0 IHn0|t0 IHt0 i0 IHi0|f0 IHf0 a0 IHa0|f0 IHf0 a0 IHa0| |x0 IHx0 r0 IHr0];
+    (split; intro H; try exact H; try (destruct H; fail)).
+  - destruct H as (H1 & H2 & H3). simpl. split; [apply IHt; exact H1 | auto].
+  - destruct H as (H1 & H2 & H3). simpl. repeat split; [apply IHv; exact H1 | exact H2 |]. rewrite is_target_norm. exact H3.
   - destruct H as (H1 & H2 & H3 & H4). simpl. destruct (op_eqb o BComma) eqn:E.
-    + apply wf_comma_app; auto.
-    + simpl. repeat split; auto. rewrite is_target_norm. exact H4.
-  - destruct H as (H1 & H2 & H3). simpl. auto.
-  - destruct H as (H1 & H2). simpl. auto.
+    + apply wf_comma_app; [apply IHl; exact H1 | apply IHr; exact H2].
+    + simpl. repeat split; [apply IHl; exact H1 | apply IHr; exact H2 | exact H3 |]. rewrite is_target_norm. exact H4.
+  - destruct H as (H1 & H2 & H3). simpl. repeat split; [apply IHc0 | apply IHy0 | apply IHn0]; assumption.
+  - destruct H as (H1 & H2). simpl. split; [apply IHt0 | apply IHi0]; assumption.
+  - destruct H as (H1 & H2). simpl. split; [apply IHf0 | apply IHa0]; assumption.
+  - destruct H as (H1 & H2). simpl. split; [apply IHf0 | apply IHa0]; assumption.
+  - destruct H as (H1 & H2). simpl. split; [apply IHx0 | apply IHr0]; assumption.
 Qed.
+Lemma wf_norm e : wf e -> wf (norm e).
+Proof. apply (proj1 (wf_norm_both e)). Qed.
 
 Lemma cnf_comma_plain a b : cnf a -> cnf b -> not_comma b -> cnf (EBin BComma a b).
 Proof. intros Ha Hb Hn. simpl. auto. Qed.
 Lemma cnf_comma_app a : forall b, cnf a -> cnf b -> cnf (comma_app a b).
 Proof.
-  induction b as [s|s|b0 f|t IHt s|u v IHv|o b1 IH1 b2 IH2|c0 IHc0 y0 IHy0 n0 IHn0|t0 IHt0 i0 IHi0]; intros Ha Hb;
+  induction b as [s|s|b0 f|t IHt s|u v IHv|o b1 IH1 b2 IH2|c0 IHc0 y0 IHy0 n0 IHn0|t0 IHt0 i0 IHi0|f0 IHf0 a0 IHa0|f0 IHf0 a0 IHa0| |x0 IHx0 r0 IHr0]; intros Ha Hb;
     try (apply cnf_comma_plain; [assumption | assumption | exact I]).
   destruct o; try (apply cnf_comma_plain; [assumption | assumption | exact I]).
   change (comma_app a (EBin BComma b1 b2)) with (EBin BComma (comma_app a b1) b2).
@@ -85,14 +103,14 @@ Proof.
 Qed.
 Lemma cnf_norm : forall e, cnf (norm e).
 Proof.
-  induction e as [s|s|b f|t IHt s|u v IHv|o l IHl r IHr|c0 IHc0 y0 IHy0 n0 IHn0|t0 IHt0 i0 IHi0]; simpl; auto.
+  induction e as [s|s|b f|t IHt s|u v IHv|o l IHl r IHr|c0 IHc0 y0 IHy0 n0 IHn0|t0 IHt0 i0 IHi0|f0 IHf0 a0 IHa0|f0 IHf0 a0 IHa0| |x0 IHx0 r0 IHr0]; simpl; auto.
   destruct (op_eqb o BComma) eqn:E.
   - apply cnf_comma_app; auto.
   - simpl. repeat split; auto. intro H. subst o. discriminate.
 Qed.
 Lemma norm_cnf_id : forall e, cnf e -> norm e = e.
 Proof.
-  induction e as [s|s|b f|t IHt s|u v IHv|o l IHl r IHr|c0 IHc0 y0 IHy0 n0 IHn0|t0 IHt0 i0 IHi0]; intro H; simpl in *; try reflexivity.
+  induction e as [s|s|b f|t IHt s|u v IHv|o l IHl r IHr|c0 IHc0 y0 IHy0 n0 IHn0|t0 IHt0 i0 IHi0|f0 IHf0 a0 IHa0|f0 IHf0 a0 IHa0| |x0 IHx0 r0 IHr0]; intro H; simpl in *; try reflexivity.
   - rewrite IHt; auto.
   - rewrite IHv; auto.
   - destruct H as (H1 & H2 & H3). rewrite IHl, IHr by assumption.
@@ -101,6 +119,9 @@ Proof.
     apply comma_app_plain. auto.
   - destruct H as (H1 & H2 & H3). rewrite IHc0, IHy0, IHn0 by assumption. reflexivity.
   - destruct H as (H1 & H2). rewrite IHt0, IHi0 by assumption. reflexivity.
+  - destruct H as (H1 & H2). rewrite IHf0, IHa0 by assumption. reflexivity.
+  - destruct H as (H1 & H2). rewrite IHf0, IHa0 by assumption. reflexivity.
+  - destruct H as (H1 & H2). rewrite IHx0, IHr0 by assumption. reflexivity.
 Qed.
 Lemma norm_idem e : norm (norm e) = norm e.
 Proof. apply norm_cnf_id. apply cnf_norm. Qed.
@@ -109,6 +130,8 @@ Proof. apply norm_cnf_id. apply cnf_norm. Qed.
 Theorem parse_print_items_all e :
   wf e -> exists n, forall m, (n <= m)%nat -> parse_fuel m (toks (print_items LLowest e)) = Some (norm e).
 Proof.
-  intro Hwf. destruct (parse_print_items_cnf (norm e) (wf_norm e Hwf) (cnf_norm e)) as [n Hn].
+  intro Hwf. destruct (parse_print_items_cnf mw (norm e) (wf_norm e Hwf) (cnf_norm e)) as [n Hn].
   exists n. intros m Hm. specialize (Hn m Hm). rewrite print_norm, norm_idem in Hn. exact Hn.
 Qed.
+
+End WithMode.
